@@ -32,11 +32,11 @@ RULE = (
     "excluded directory) and (>= 2 generations or a nested history); distinct by canonical scenario hash."
 )
 ASSUMPTIONS = [
-    "patterns are base names, simple globs, 'name/' directory patterns or root-relative paths 'a/b'; negation, leading '/', '**', comments and trailing blanks are not generated (their meaning is not stated)",
+    "patterns are base names, simple globs, 'name/' directory patterns, root-relative paths 'a/b' or root-anchored names '/name', '/*.ext' (gitwildmatch, the syntax ignore.py names); negation, '**', comments and trailing blanks are not generated",
     "path components are matched case-sensitively",
 ]
 BUDGET = {"quick": (200, 4), "thorough": (64000, 16)}
-REQUIRED = ["glob", "dir_pattern", "basename", "relpath_pattern", "ii_file", "nested", "child_after_parent", "x_file_and_dir", "multi_generation", "duplicate_pattern", "verify_dh", "sf_generation", "real_missing_next_to_excluded", "blank_in_pattern_file_line", "cli_pattern_on_verify_dh", "nested_history_folder_removed", "cli_pattern_on_verify_and_diff"]
+REQUIRED = ["glob", "dir_pattern", "basename", "relpath_pattern", "ii_file", "nested", "child_after_parent", "x_file_and_dir", "multi_generation", "duplicate_pattern", "verify_dh", "sf_generation", "real_missing_next_to_excluded", "blank_in_pattern_file_line", "cli_pattern_on_verify_dh", "nested_history_folder_removed", "cli_pattern_on_verify_and_diff", "anchored_pattern", "renamed_then_excluded", "pattern_file_on_verify_dh"]
 
 DEFAULTS = [".DS_Store", "ascmhl", "ascmhl/"]
 _first = "abcdefghijklmnopqrstuvwxyzABCDEFGHIJKLMNOPQRSTUVWXYZ0123456789_."
@@ -54,10 +54,15 @@ def _walk(tree, prefix=""):
 def _patterns(draw, names_files, names_dirs, k, relpaths=()):
     out = []
     for _ in range(k):
-        kind = draw(st.sampled_from(["base", "base_dir", "base_dir", "glob", "glob", "dir", "dir", "absent"] + (["relpath"] * 3 if relpaths else [])))
+        kind = draw(st.sampled_from(["base", "base_dir", "base_dir", "glob", "glob", "dir", "dir", "absent"] + (["relpath"] * 3 + ["anchored"] * 2 if relpaths else [])))
         pool = names_files + names_dirs
         if kind == "relpath":
             out.append(draw(st.sampled_from(list(relpaths))))
+            continue
+        if kind == "anchored" and pool:
+            # a leading separator ties a name (or glob) to the root level: deeper entries of that name stay
+            n = draw(st.sampled_from(pool))
+            out.append("/" + (n if draw(st.booleans()) or "." not in n[1:] else "*" + n[n.rindex("."):]))
             continue
         if kind == "base" and pool:
             out.append(draw(st.sampled_from(pool)))
@@ -78,7 +83,7 @@ def _patterns(draw, names_files, names_dirs, k, relpaths=()):
             out.append(draw(st.sampled_from(names_dirs)) + "/")
         else:
             out.append("zz" + draw(st.text("abcxyz019", min_size=1, max_size=4)))
-    return [p for p in out if p and p[0] in _first + "*?" and p not in ("*", "**", "*/") and not p.startswith("*.*")]
+    return [p for p in out if p and (p[0] in _first + "*?" or (p[0] == "/" and len(p) > 1 and p[1] in _first + "*")) and p not in ("*", "**", "*/", "/*") and not p.startswith("*.*") and not p.startswith("/*.*")]
 
 
 @st.composite
@@ -130,7 +135,11 @@ def matches(relpath, patterns):
     """our reading of the three pattern classes on a root-relative path"""
     parts = relpath.split("/")
     for p in patterns:
-        if p.endswith("/"):
+        if p.startswith("/") and "/" not in p[1:]:
+            # anchored: only the entry of that name directly in the root (and what lies below it)
+            if fnmatch.fnmatchcase(parts[0], p[1:]):
+                return True
+        elif p.endswith("/"):
             g = p[:-1]
             if any(fnmatch.fnmatchcase(c, g) for c in parts[:-1]):
                 return True
@@ -362,7 +371,14 @@ def run_case(scn, ctx):
         cand = [f for f in w.media_files("R") if not matches(f[2:], eff) and f in tw.files and set(f.split("/")[-1]) <= set("abcdefghijklmnopqrstuvwxyzABCDEFGHIJKLMNOPQRSTUVWXYZ0123456789._") and f.split("/")[-1][0] not in ".-"]
         if cand and not scn["child"]:
             cli_pat = cand[(scn["edits"] // 5) % len(cand)].split("/")[-1]
-            r1 = w.verify("R", flags=["-dh", "-co", "-i", cli_pat])
+            if scn["edits"] % 2:
+                os.makedirs(w.abs("_ii"), exist_ok=True)
+                with open(w.abs("_ii/dh.txt"), "w") as fh:
+                    fh.write(cli_pat + "\n")
+                r1 = w.verify("R", flags=["-dh", "-co", "-ii", w.abs("_ii/dh.txt")])
+                feats.add("pattern_file_on_verify_dh")
+            else:
+                r1 = w.verify("R", flags=["-dh", "-co", "-i", cli_pat])
             for f in [f for f in list(tw.files) if f.startswith("R/") and matches(f[2:], [cli_pat])]:
                 tw.rm(f)
             for d in sorted([d for d in list(tw.dirs) if d.startswith("R/") and matches(d[2:], [cli_pat])], key=len, reverse=True):
@@ -396,6 +412,25 @@ def run_case(scn, ctx):
                         require(len(extra_lines) == int(m.group(1)), "missing-listing", "%s announces %s missing file(s) but lists %r" % (cmd, m.group(1), extra_lines), res)
                 require(block == {victim[2:]}, "missing-listing", "%s lists %r as missing; only %r is missing and not excluded (patterns %r)" % (cmd, block, victim[2:], eff), res)
             feats.add("real_missing_next_to_excluded")
+        # a file is renamed, the rename recorded with -dr, and only afterwards a pattern matching the new name becomes
+        # effective (on the command line of verify / diff, then through a create): the former name must not resurface
+        if not scn["child"] and not any(matches(x, eff) for x in ("ren_src.mov", "ren_dst.qq7")) and "R/ren_src.mov" not in w.files:
+            w.put("R/ren_src.mov", "content that only the renamed file has")
+            r0 = w.create("R", ["md5"])
+            w.mv("R/ren_src.mov", "R/ren_dst.qq7")
+            r1 = w.create("R", ["md5"], flags=["-dr"])
+            if r0.exit_code in (0, 10) and r1.exit_code in (0, 10) and r0.exc is None and r1.exc is None:
+                was = r1.exit_code
+                for cmd in ("verify", "diff"):
+                    res = w.run(cmd, [w.abs("R"), "-i", "*.qq7"])
+                    require(res.exc is None and res.exit_code == was and "ren_src.mov" not in res.output and "ren_dst.qq7" not in res.output, "renamed-then-excluded", "%s -i '*.qq7' after a recorded rename ren_src.mov -> ren_dst.qq7: %s\n%s" % (cmd, res.brief(), res.output[-300:]), res)
+                res = w.create("R", ["md5"], extra=["-i", "*.qq7"])
+                require(res.exc is None and res.exit_code == was and "ren_src.mov" not in res.output, "renamed-then-excluded", "create -i '*.qq7' after a recorded rename: %s\n%s" % (res.brief(), res.output[-300:]), res)
+                eff = eff + ["*.qq7"]
+                for cmd in ("verify", "diff"):
+                    res = getattr(w, cmd)("R")
+                    require(res.exc is None and res.exit_code == was and "ren_src.mov" not in res.output, "renamed-then-excluded", "%s after the pattern was recorded: %s\n%s" % (cmd, res.brief(), res.output[-300:]), res)
+                feats.add("renamed_then_excluded")
         # the folder of the nested history disappears altogether and the parent is sealed again with one more pattern: the
         # run ends with exit 10 (the child is missing) and still neither hashes nor records anything that is excluded
         child = scn["child"]
@@ -420,8 +455,10 @@ def run_case(scn, ctx):
             feats.add("dir_pattern")
         if any(not p.endswith("/") and "/" not in p and "*" not in p and "?" not in p for p in allp):
             feats.add("basename")
-        if any("/" in p[:-1] for p in allp):
+        if any("/" in p[1:-1] for p in allp):
             feats.add("relpath_pattern")
+        if any(p.startswith("/") for p in allp):
+            feats.add("anchored_pattern")
         if any(" " in p for g in scn["gens"] for p in g["ii"]):
             feats.add("blank_in_pattern_file_line")
         if any(g["ii"] for g in scn["gens"]):
